@@ -1,4 +1,5 @@
 import QibModel.Lattice
+import QibModel.LatticeShift
 import QibModel.Json
 /-! Driver ops `lat.nsites`, `lat.adj`, `lat.i2c`, `lat.c2i` (C14). A rejection made by the code is an
 ordinary reply `{"raised": kind}`; only malformed requests are driver errors. -/
@@ -55,6 +56,20 @@ def opNsites (j : Json) : Except String Json := withLat j fun l => return natJ l
 
 def opAdj (j : Json) : Except String Json := withLat j fun l =>
   return Json.arr (l.adjMatrix.map ofNats).toArray
+
+/-- `lat.shift`: `IntegerLattice(shape, pbc).adjacency_matrix_axis_shift(d, s)` for a list of `(d, s)` arguments -/
+def opShift (j : Json) : Except String Json := withLat j fun l => do
+  let args ← fList j "args"
+  match l with
+  | .integer shape pbc =>
+    let res ← args.mapM fun a => do
+      let d ← fNat a "d"
+      let s ← fInt a "s"
+      return match axisShiftCall shape pbc d s with
+        | .ok m => Json.arr (m.map ofNats).toArray
+        | .error e => raisedJson e
+    return Json.arr res.toArray
+  | _ => .error "lat.shift: integer lattices only"
 
 def opI2c (j : Json) : Except String Json := withLat j fun l => do
   let args ← listOf J.int (← field j "args")
